@@ -886,3 +886,47 @@ def node_source(src, ops, rank):
         if op.result == f"node {rank}" and op.idx < len(src):
             return src[op.idx]
     return None
+
+
+# ---------------------------------------------------------------- C16 / C17 (per-key part)
+def oracle_perkey(src, ops, tail):
+    """no panic; the observed output equals the per-entry computation; the user's per-key function is
+    invoked at most once per key and stabilise, only for keys of the current input, and — while the
+    output stays observed — only for keys that were not in the input at the previous stabilise."""
+    why = oracle_no_panic(src, ops, tail) or oracle_values(src, ops, tail, check_frame=False)
+    if why:
+        return why
+    ref = Ref()
+    prev_keys, prev_observed = None, False
+    for op in ops:
+        if op.idx >= len(src):
+            break
+        line = src[op.idx]
+        ref.step(line)
+        if line != "stabilise":
+            continue
+        cur = ref.store[0] if ref.store and isinstance(ref.store[0], dict) else None
+        if cur is None:
+            continue
+        calls = [int(e.split()[2]) for e in op.events if e.startswith("perkeyfn")]
+        if len(set(calls)) != len(calls):
+            return f"op {op.idx}: the per-key function ran twice for one key in one stabilise: {calls}"
+        for k in calls:
+            if k not in cur:
+                return f"op {op.idx}: the per-key function ran for key {k}, which is not in the input {show(cur)}"
+        observed = any(o["state"] == "inuse" and o["handles"] > 0 and _mentions_permapi(o["expr"]) for o in ref.obs)
+        if prev_keys is not None and prev_observed and observed:
+            for k in calls:
+                if k in prev_keys:
+                    return (f"op {op.idx}: the per-key function ran again for key {k}, which was already in the input at the "
+                            f"previous stabilise (only added keys need their computation built)")
+        prev_keys, prev_observed = set(cur), observed
+    return None
+
+
+def _mentions_permapi(e, depth=0):
+    if depth > 50 or not isinstance(e, (tuple, list)):
+        return False
+    if len(e) > 0 and e[0] == "permapi":
+        return True
+    return any(_mentions_permapi(x, depth + 1) for x in e if isinstance(x, (tuple, list)))
